@@ -1180,7 +1180,16 @@ def main(tier):
         "distinct_nontrivial": len(distinct),
         "rule": "projects: positions x {runtime, TYPE_CHECKING, else of TYPE_CHECKING}; catalogue of import forms x importer location on a "
                 "layout with same-named modules in different packages; random layouts (2-3 packages, nested subpackages, re-exports, __all__) in "
-                "modes clean / implicit-relative / __all__-hides / irregular re-export; import chains with and without cycles. "
+                "modes clean / implicit-relative / __all__-hides / irregular re-export; import chains with and without cycles; "
+                "name collisions: a name re-exported by pkg/__init__.py that is also a submodule of pkg (not re-exported / taken from "
+                "another module by a relative or absolute from-import, without and under an alias / from the submodule of that name / the "
+                "submodule itself bound / two bindings in both orders / from a subpackage's module) x __all__ absent, complete, empty x "
+                "package at top level and nested x the importing forms `from pkg import n`, `n as x`, with other names, inside a "
+                "def/try/if, `from . import n` and `from .. import n` inside the package, each in its own module (every project also "
+                "through python3); module names that are string prefixes of one another without being package and submodule (pkg "
+                "next to pkg_utils.py, pkg2/, the same one level down): every ordered pair imports the other by `import t`, `from t "
+                "import a`, `from parent import t` and the relative forms, from __init__ files and ordinary modules, once with the "
+                "__init__ files importing their own submodules too. "
                 "distinct = distinct implementation edge sets",
         "input_distribution": dict(fam_count, deviation_classes_present=class_count, cpython_projects=n_oracle,
                                    cpython_statements=n_oracle_stmts, cli_reports_compared=n_cli, metric_checks=n_metric_checks),
